@@ -232,7 +232,7 @@ func parseContractComments(cs *ContractSet, fset *token.FileSet, pkgPath string,
 							}
 						}
 					}
-					if kind != "invariant" && kind != "decreases" && kind != "body" {
+					if kind != "invariant" && kind != "decreases" && kind != "body" && kind != "leave" {
 						return fmt.Errorf("%s:%d: bad loop clause kind %s", fname, line, kind)
 					}
 					r := strings.TrimSpace(rest)
